@@ -71,6 +71,24 @@ func c12Envelope(cs *drv.Case, name string, mtype int32, seq int32, sched int) b
 		br.Recycle()
 		return fail("envelope-stream-reader", "got (%.40q, %d, %d, consumed %d, %v)", gn, gt, gs, consumed, err)
 	}
+	// a connection that stays open after the header has arrived (the peer now waits for the reply): reading the
+	// header never asks the source for more than the header's own bytes
+	{
+		src := &doubles.Source{Data: want, Len: len(want), ErrAt: len(want), Err: io.EOF, Sched: sched, R: cs.R, ZeroMax: 2, Budget: 10*len(want) + 100000}
+		rd2 := bufiox.NewDefaultReader(src)
+		br2 := thrift.NewBufferReader(rd2)
+		n2, t2, s2, err2 := br2.ReadMessageBegin()
+		c2 := br2.Readn()
+		br2.Recycle()
+		if err2 != nil || n2 != name || t2 != wantType || s2 != seq || int(c2) != len(want) {
+			return fail("envelope-stream-reader", "header alone on the stream: got (%.40q, %d, %d, consumed %d, %v)", n2, t2, s2, c2, err2)
+		}
+		if src.EndReads > 0 {
+			return fail("envelope-reader-demands-more-than-the-header", "%d Read calls after the source had delivered every byte of the %d-byte header (blocks for good on a connection that stays open)", src.EndReads, len(want))
+		}
+		rd2.Release(nil)
+		cs.C.Obs("headers read from a source holding nothing else", 1)
+	}
 	// the returned name is a value: it must survive Release, further reads and reuse of the pool buffers
 	rd.Release(nil)
 	rd.Next(3)
